@@ -71,6 +71,18 @@ def run(rep, ctx):
             check_edges(rep, edges, restart, 'pool-%dreq-restart-%s' % (n, 'on' if restart else 'off'), tries)
             if len(rep.samples) < 3 and edges:
                 rep.sample({'requests': n, 'restart': restart, 'schedule': edges[len(edges) // 2][0], 'expected': edges[len(edges) // 2][1]})
+    # the same containment while a shutdown is in progress (a graceful shutdown waits for running diffs: their pools can still break):
+    # schedules that contain both a pool break and a begin-shutdown event, judged by the C07 clauses only
+    for restart in (False, True):
+        edges, nstates = ph.explore(2, tries, restart, True)
+        total_states += nstates
+        edges = [e for e in edges if any(k == 'shutdown' for k, _ in e[0]) and any(k == 'break' for k, _ in e[0])]
+        if tier == 'quick':
+            rng.shuffle(edges)
+            edges = edges[:6000]
+        for sched, _ in edges:
+            rep.count(repr(sched), True)
+        check_edges(rep, edges, restart, 'pool-during-shutdown-2req-restart-%s' % ('on' if restart else 'off'), tries)
     rep.extra['states'] = total_states
     rep.extra['transitions'] = rep.evaluations
     rep.extra['traces_validated_against_impl'] = rep.evaluations
